@@ -336,4 +336,9 @@ EXPLANATION = (
     'must afterwards on all paths reach a queue-purging method for each container. C08.GATE (decided): C17.GATE. Not decided: the '
     'trace-level statement over all interleavings [X].'
 )
+EXPLANATION_ADDENDUM = (
+    ' C08.COMPLETE (necessary): each blocking wrapper waits for the broadcast task its async routine returns (sibling agreement). C08.REVALIDATE (necessary): after every suspension the broadcast task looks the service up in the registry before it transmits records with their normal TTL. C08.PURGE also requires the purge to visit every queued group and every record, and whatever is handed to a multi-pass helper to be re-iterable.'
+)
+EXPLANATION = EXPLANATION + EXPLANATION_ADDENDUM
+
 RULES = [goodbye, purge, complete, revalidate, gate]
